@@ -508,6 +508,7 @@ func specStay(v int) bool {
 //@   loop 3 decreases len(l.input) - l.position
 //@   ensures [cursor] lexInv(l)
 //@   ensures [skip] l.position == skipTrivia(l.input, old(l.position))
+//@   ensures [mono] l.position >= old(l.position)
 //@   ensures [nl] l.hadNewlineBefore == hasNL(l.input, old(l.position), l.position)
 
 //@ func baseNextToken(l)
@@ -548,6 +549,9 @@ func specStay(v int) bool {
 //@   ensures [slice] implies(specLetter(byteAt(l.input, skipTrivia(l.input, old(l.position)))) || specDigit(byteAt(l.input, skipTrivia(l.input, old(l.position)))), result.Literal == l.input[skipTrivia(l.input, old(l.position)):l.position])
 //@   ensures [kw] implies(specLetter(byteAt(l.input, skipTrivia(l.input, old(l.position)))), result.Type == token.SpecLookup(result.Literal) && l.position == identEnd(l.input, skipTrivia(l.input, old(l.position))))
 //@   ensures [nl] result.AfterNewline == hasNL(l.input, old(l.position), skipTrivia(l.input, old(l.position)))
+//@   ensures [pos.mono@C10,C11] l.position >= old(l.position)
+//@   ensures [pos.progress@C10,C11] implies(result.Type != token.EOF, l.position > old(l.position))
+//@   ensures [pos.eof@C10,C11] implies(result.Type == token.EOF, l.position == len(l.input))
 //@   ensures-def [origin] LexTok(result)
 
 //@ func (l *Lexer) useTokenInterceptor(interceptor)
